@@ -910,3 +910,39 @@ def c16(tier, seed):
     c.conform(binary, fails, "alloc-failure", nontrivial=lambda s: True)
     c.cov["bounds"] = {"N": lens, "faults": "a panic at every closure call; a failure at every allocator call each operation makes"}
     return c.finish()
+
+
+# ---------------------------------------------------------------------------------------------
+# C17 serde
+# ---------------------------------------------------------------------------------------------
+@check("C17")
+def c17(tier, seed):
+    c = Check("C17", tier, seed)
+    binary = vlib.build_harness()
+    r = c.mc("MC_Serde", "MC_Serde_q" if tier == "quick" else "MC_Serde_t")
+    scns = []
+    for d in dedupe(r["scenarios"]):
+        mode = d["hints"][0]
+        st = {"op": "deserialize", "n": d["n"], "src": "script", "script": d["script"]}
+        if mode == "truthful":
+            st["hints"] = "truthful"
+        elif mode == "fixed":
+            st["hints"] = [d["hints"][1], d["hints"][2]]
+        scns.append({"case": "de-script", "prop": "C17", "ety": "tk", "steps": [st], "d": dict(d)})
+    lens = [0, 1, 2, 3, 4, 8] if tier == "quick" else [0, 1, 2, 3, 4, 8, 12, 16, 33, 97]
+    for n in lens:
+        # serialisation: call sequence and real formats; then round trips through real formats
+        scns.append({"case": "ser", "prop": "C17", "ety": "tk", "steps": [_mk("arr", n), {"op": "serialize", "recv": [1]}], "d": {"op": "serialize", "n": n}})
+        for src in ("json", "value", "bincode"):
+            for l in sorted({0, max(n - 1, 0), n, n + 1, n + 2}):
+                if src == "bincode" and l > n:
+                    continue  # no framing: trailing bytes are not elements of the tuple
+                bads = [-1] + (list(range(min(l, n + 1))) if src != "bincode" and n <= 4 else ([0, l - 1] if src != "bincode" and l else []))
+                for b in sorted(set(bads)):
+                    scns.append({"case": "de-" + src, "prop": "C17", "ety": "tk", "steps": [{"op": "deserialize", "n": n, "src": src, "l": l, "bad_at": b}],
+                                 "d": {"op": "deserialize", "src": src, "n": n, "l": l, "bad_at": b}})
+    c.cov["exhaustive"] = True
+    c.cov["bounds"] = {"model": "N in 0..%d, every 0/1 script of length <= N+2, an element error at every index, 14 hint modes" % (2 if tier == "quick" else 4), "real formats": "serde_json, serde_json::Value, bincode; N in %s" % lens}
+    c.conform(binary, with_etys(scns, ["tk", "zst", "plain"]), "serde")
+    c.assumptions.append("outside the claim (and accepted either way): a SeqAccess that reports 0 elements left while still holding elements")
+    return c.finish()
